@@ -53,7 +53,19 @@ def gen_unit(seed, nnames, maxdepth, pool_size):
         if kind == "enumconst":
             lines.append("%senum { %s = %d };" % (indent, name, v))
         elif kind == "typedef":
-            lines.append("%stypedef char %s[%d];" % (indent, name, v))
+            # a typedef may be repeated in its scope with the same type (6.7p3); the declarators may get the name from anywhere,
+            # e.g. both from one macro's replacement list or from one macro argument
+            r = d(_int(0, 7))
+            if r == 0:
+                lines.append("%stypedef char %s[%d]; typedef char %s[%d];" % (indent, name, v, name, v))
+            elif r == 1:
+                lines.append("#define TM%d %s" % (val[0], name))
+                lines.append("%stypedef char TM%d[%d]; typedef char TM%d[%d];" % (indent, val[0], v, val[0], v))
+            elif r == 2:
+                lines.append("#define TW%d(n) typedef char n[%d]; typedef char n[%d]" % (val[0], v, v))
+                lines.append("%sTW%d(%s); typedef char %s[%d];" % (indent, val[0], name, name, v))
+            else:
+                lines.append("%stypedef char %s[%d];" % (indent, name, v))
         elif kind == "object":
             lines.append("%sstatic char %s[%d];" % (indent, name, v))
         elif d(_int(0, 2)) == 0:
